@@ -1,6 +1,8 @@
 package evaluator
 
 import (
+	"sort"
+
 	"github.com/Syuparn/pangaea/ast"
 	"github.com/Syuparn/pangaea/object"
 )
@@ -11,7 +13,18 @@ func evalKwargs(
 ) (*object.PanObj, *object.PanErr) {
 	pairMap := map[object.SymHash]object.Pair{}
 
-	for k, v := range kwargs {
+	// NOTE: evaluate kwargs in the order they are written
+	// (order of go map iteration is random)
+	keys := make([]*ast.Ident, 0, len(kwargs))
+	for k := range kwargs {
+		keys = append(keys, k)
+	}
+	sort.SliceStable(keys, func(i, j int) bool {
+		return precedesInSource(keys[i], keys[j])
+	})
+
+	for _, k := range keys {
+		v := kwargs[k]
 		val := Eval(v, env)
 
 		if err, ok := val.(*object.PanErr); ok {
@@ -31,4 +44,15 @@ func evalKwargs(
 	obj, _ := (object.PanObjInstancePtr(&pairMap)).(*object.PanObj)
 
 	return obj, nil
+}
+
+func precedesInSource(i, j *ast.Ident) bool {
+	if i.Src != nil && j.Src != nil && i.Src.Pos != j.Src.Pos {
+		if i.Src.Pos.Line != j.Src.Pos.Line {
+			return i.Src.Pos.Line < j.Src.Pos.Line
+		}
+		return i.Src.Pos.Column < j.Src.Pos.Column
+	}
+	// NOTE: idents without source info are ordered by their names
+	return i.String() < j.String()
 }
